@@ -140,6 +140,39 @@ CLAIMED = {
     note="Callbacks abstract (may raise, plain or coroutine), no re-entrant (un)registration during dispatch; per-object chain (a redefinition creates new elements); BLOB identity comparison.",
     technique="contract-based deductive verification: loop invariant over a symbolic callback list, chain obligations at the event-raising sites, z3",
     design="4 C16"),
+ "C18": dict(
+    category="proof",
+    text="Deductive over exceptional control flow: the server's per-connection coroutine (TCP handler_func, TTY handle) is executed symbolically with the receive loop under "
+         "the invariant rule and every await havocked -- any data incl. EOF, an I/O error, cancellation -- and message handling allowed to raise anything; on EVERY exit it is "
+         "proved that the connection was registered exactly once, is unregistered exactly once afterwards, its socket is closed exactly once (TCP), it leaves the server's "
+         "connection list while the others stay, and the coroutine itself swallows the failure. The router half -- unregister_client forgets the client and its policy row and "
+         "leaves all others registered with their policies, register_client starts a peer with default policy, delivery only to registered clients -- are the C04/C05 mutator proofs.",
+    note="Trusted: cooperative-asyncio segment model (awaits havocked, no scheduler), writer.close/logger do not raise. Not covered: write errors surfacing in send tasks; "
+         "tasks queued before the close.",
+    technique="contract-based deductive verification: exceptional postconditions on all exits of the connection coroutine, loop invariant for the receive loop, z3",
+    design="4 C18"),
+ "C19": dict(
+    category="other",
+    text="Lock-discipline (ownership) contract O1..O5 discharged deductively on the real code of the three senders: bytes produced synchronously in the routing call; the "
+         "routing call is a plain function creating exactly one task with exactly those bytes and awaiting nothing; every stream access inside one critical section of the "
+         "connection's own lock; the whole message handed over in one write before any await in the section; nothing else touches the stream. The step from O1..O5 to "
+         "'whole, non-interleaved, in routing order for every completion order, a stalled connection delays only itself' is an argument about asyncio's scheduler, Lock "
+         "fairness and StreamWriter, which this technique family does not model: it is assumed and stated, hence level 'other' rather than 'proof'.",
+    note="Assumed: asyncio task start order, FIFO Lock wake-up, atomic write; to_string abstracted (C03).",
+    technique="contract-based deductive verification of a lock-discipline contract (trace obligations on the real coroutines); scheduler semantics assumed",
+    design="4 C19 / 5"),
+ "C17": dict(
+    category="proof",
+    text="Deductive segment analysis of the real BaseClient.waitforevent: the coroutine and its closures are split at their awaits; each atomic segment -- the temporary "
+         "callback cb (for ValueUpdate and StateUpdate events, conditions expect / initial / check), the tail of timeout_check, an iteration of poll, and the tail of the wait -- "
+         "is executed symbolically from an ARBITRARY shared state satisfying the invariant J (completed => exactly one of timeout / event) and proved to preserve J, never to "
+         "change a completed result (first match wins), to release exactly when the event satisfies the condition, to time out only an uncompleted wait, to re-request the "
+         "properties only while uncompleted and never touch the result, and to end by returning the recorded event or raising iff the timeout fired, leaving no callback "
+         "registered. Arbitrary-state segment proofs cover every interleaving, i.e. every arrival time relative to timeout and polling ticks.",
+    note="Cooperative-asyncio model; time is not modelled: 'at the timeout instant' and 'at the configured delay and interval' are NOT decided (they rest on the assumed "
+         "asyncio.sleep contract); no liveness claim.",
+    technique="contract-based deductive verification: cooperative Owicki-Gries style invariant over atomic segments of the real coroutine, z3",
+    design="4 C17 / 5"),
 }
 
 NOT_YET = "check not built yet (work in progress)"
